@@ -352,6 +352,12 @@ func (a *genericAuthenticator) calculateCacheKey(ctx heimdall.Context, reference
 	digest.Write(a.e.Hash())
 	digest.Write(stringx.ToBytes(reference))
 
+	// the payload sent to the endpoint is rendered from the template and the reference. So, instances
+	// using the same endpoint, but different payload templates must not share their entries
+	if a.payload != nil {
+		digest.Write(a.payload.Hash())
+	}
+
 	// the ttl can be redefined on the rule level. An entry stored by an instance with a longer
 	// ttl must not be used by an instance configured with a shorter one beyond that ttl
 	const int64BytesCount = 8
